@@ -50,6 +50,25 @@ INVARIANTS = {
     "RegularArray": ["size_ >= 0", "length_ >= 0"],
 }
 
+# Contracts of the recursive virtual methods (lengths only).  Inside a method body they are ASSUMED (METHOD_PRE /
+# VMETHODS pre); at every call `x->method(...)` found in libawkward they are CHECKED (G.method) with length(x) taken
+# from the content-length model (carry(i) has len(i) elements, getitem_range_nowrap(a, b) has b - a, ...).
+VMETHODS = {
+    "reduce_next": {"params": ["reducer", "negaxis", "starts", "shifts", "parents", "outlength", "mask", "keepdims"],
+                    "pre": [("len(parents) == length(this)", lambda a: a["len:parents"] == a["this.length"]),
+                            ("len(starts) == outlength", lambda a: a["len:starts"] == a["outlength"]),
+                            ("outlength >= 0", lambda a: a["outlength"] >= 0)]},
+    "sort_next": {"params": ["negaxis", "starts", "parents", "outlength", "ascending", "stable"],
+                  "pre": [("len(parents) == length(this)", lambda a: a["len:parents"] == a["this.length"]),
+                          ("outlength >= 0", lambda a: a["outlength"] >= 0)]},
+    "getitem_next": {"params": ["*", "tail", "advanced"],
+                     "pre": [("len(advanced) == 0 or len(advanced) == length(this)",
+                              lambda a: z3.Or(a["len:advanced"] == 0, a["len:advanced"] == a["this.length"]))]},
+    "argsort_next": {"params": ["negaxis", "starts", "shifts", "parents", "outlength", "ascending", "stable"],
+                     "pre": [("len(parents) == length(this)", lambda a: a["len:parents"] == a["this.length"]),
+                             ("outlength >= 0", lambda a: a["outlength"] >= 0)]},
+}
+
 # preconditions of virtual methods (stated once; their call sites are glue and are not checked here)
 METHOD_PRE = {
     "reduce_next": ["outlength >= 0", "negaxis >= 1"],
@@ -75,6 +94,18 @@ def index_elem(ty):
     return ELEM.get((m.group(1) or m.group(2) or "").strip(), "i64")
 
 
+# conversions that return an array of the same length as the one they are called on
+SAME_LENGTH_METHODS = ("shallow_copy", "deep_copy", "shallow_simplify", "toListOffsetArray64", "toRegularArray",
+                       "simplify_optiontype", "simplify_uniontype", "toIndexedOptionArray64", "toByteMaskedArray")
+
+
+def vm_params_match(vm, names):
+    want = vm["params"]
+    if len(want) != len(names):
+        return False
+    return all(w == "*" or w == n for w, n in zip(want, names))
+
+
 class CallerUnit(munit.MUnit):
     def __init__(self, label, stmts, params, fields, consts, methods, enums, kernels, reg, KI, clsname, active=None):
         variables = []
@@ -97,6 +128,28 @@ class CallerUnit(munit.MUnit):
         self.param_types = {n: t for n, t in params}
         self.sites = []                 # result records
         self.callno = 0
+        # static ordinals of call sites: the k-th textual occurrence (by source line) of a call to the same kernel or
+        # virtual method inside this method body.  Keys built from them survive reordering of OTHER calls and do not
+        # depend on the path taken.
+        self.site_ordinal = {}
+        occ = {}
+
+        def walk(node, line):
+            if not isinstance(node, list):
+                return
+            if node and isinstance(node[0], str) and node[0] in ("decl", "expr", "if", "for", "while", "dowhile", "ret", "block") \
+                    and isinstance(node[-1], int):
+                line = node[-1]
+            if node and node[0] == "call" and isinstance(node[1], str) and node[1] in kernels:
+                occ.setdefault(node[1], set()).add(line)
+            if node and node[0] == "mcall" and len(node) > 2 and isinstance(node[2], str) and node[2] in VMETHODS:
+                occ.setdefault("method:" + node[2], set()).add(line)
+            for x in node:
+                walk(x, line)
+        walk(stmts, None)
+        for nm, lines in occ.items():
+            for k, ln in enumerate(sorted(l for l in lines if l is not None), 1):
+                self.site_ordinal[(nm, ln)] = k
         self.ev.ev_v = self.ev_var
         self.ev.ev_mcall = self.ev_mcall2
         self.ev.ev_construct = self.ev_construct
@@ -107,6 +160,7 @@ class CallerUnit(munit.MUnit):
         self.ev.ev_initlist = lambda e, st: self.opaque_value(e[-1], st, "init")
         self.ev.ev_str = lambda e, st: Val(IV(0), "opaque")
         self.ev.emit_safety = False
+        self.clen = {}
 
     # ---- objects
     def new_object(self, key, length, ety, st):
@@ -169,6 +223,79 @@ class CallerUnit(munit.MUnit):
                 pass
         return self.opaque_value(ty, st, "obj")
 
+    THIS_LENGTH = {"UnmaskedArray": ("content", "content_"), "ByteMaskedArray": ("len", "mask_"), "BitMaskedArray": ("field", "length_"),
+                   "IndexedArrayOf": ("len", "index_"), "ListOffsetArrayOf": ("len-1", "offsets_"), "ListArrayOf": ("len", "starts_"),
+                   "RegularArray": ("field", "length_"), "RecordArray": ("field", "length_"), "UnionArrayOf": ("len", "tags_")}
+
+    def this_length(self, st):
+        """length() of *this in terms of the object model (None when the class is not in the table)"""
+        how = self.THIS_LENGTH.get(self.clsname)
+        if how is None:
+            # length() is not a simple function of the modelled fields (NumpyArray: shape_[0]): one stable unknown
+            v = self.stable_value(["call", "this.length", [], "i64"], "i64", st, "length")
+            return v.t if v.k == "int" else None
+        kind, fld = how
+        ty = self.field_types.get(fld) or {"content_": "x:std::shared_ptr<awkward::Content>", "mask_": "x:awkward::Index8",
+                                            "index_": "x:awkward::Index64", "offsets_": "x:awkward::Index64",
+                                            "starts_": "x:awkward::Index64", "tags_": "x:awkward::Index8"}.get(fld)
+        if kind == "field":
+            if fld not in st.vars:
+                v = z3.Int(fld)
+                st.vars[fld] = Val(v, "int")
+            st.assume(st.vars[fld].t >= 0)
+            return st.vars[fld].t
+        if ty is None:
+            return None
+        v = self.ev_var(["v", fld, ty], st)
+        if kind == "content":
+            if v.k == "opaque" and z3.is_int_value(v.t):
+                return self.content_len(v.t.as_long(), st)
+            return None
+        if v.k != "obj":
+            return None
+        return self.objlen[v.arr] - 1 if kind == "len-1" else self.objlen[v.arr]
+
+    def content_len(self, oid, st):
+        if oid not in self.clen:
+            t = self.ev.fresh("clen%d" % oid)
+            self.clen[oid] = t
+        st.assume(self.clen[oid] >= 0)
+        return self.clen[oid]
+
+    def new_content(self, length, st):
+        self.ext_counter += 1
+        self.clen[self.ext_counter] = length
+        return Val(IV(self.ext_counter), "opaque")
+
+    def check_vmethod(self, name, this_len, args, e, st):
+        """G.method: the arguments of a recursive virtual call satisfy the callee's (length) preconditions"""
+        vm = VMETHODS[name]
+        if len(args) != len(vm["params"]):
+            return
+        self.vcallno = getattr(self, "vcallno", 0) + 1
+        env = {"this.length": this_len}
+        for p, a in zip(vm["params"], args):
+            if p == "*":
+                continue
+            try:
+                v = self.ev.ev(a, st)
+            except EvalError:
+                continue
+            if v.k == "obj":
+                env["len:" + p] = self.objlen[v.arr]
+            elif v.k in ("int", "bool"):
+                env[p] = to_int(v)
+        rec_base = {"kernel": "method:" + name, "line": self.ev.line,
+                    "n": self.site_ordinal.get(("method:" + name, self.ev.line), 100 + self.vcallno)}
+        for desc, fn in vm["pre"]:
+            try:
+                claim = fn(env)
+            except KeyError:
+                self.sites.append(dict(rec_base, param=desc, kind="G.method", status="unknown",
+                                       desc="%s at a call of %s: an argument is not modelled" % (desc, name)))
+                continue
+            self.emit(rec_base, "G.method", desc, claim, st, "call of %s: %s" % (name, desc))
+
     def _throw(self, st):
         self.exits.append(("throw", "throw", st.fork()))
         st.assume(z3.BoolVal(False))
@@ -195,6 +322,8 @@ class CallerUnit(munit.MUnit):
         if o.k == "obj":
             if name == "length" and not args:
                 return Val(self.objlen[o.arr], "int")
+            if name == "is_empty_advanced" and not args:
+                return Val(self.objlen[o.arr] == 0, "bool")
             if name in ("data", "get") and not args:
                 return Val(IV(0), "ptr", o.arr)
             if name == "ptr" and not args:
@@ -214,6 +343,31 @@ class CallerUnit(munit.MUnit):
                 return self.new_object("slice%d" % self.ext_counter, b - a, self.ev.elem.get(o.arr, "i64"), st)
         if o.k == "ptr" and name == "get":
             return o
+        if o.k == "opaque" and z3.is_int_value(o.t):
+            # a Content (or other opaque) object: identity is kept through .get(); its length is one stable unknown;
+            # results of carry / getitem_range_nowrap have the lengths those methods document
+            oid = o.t.as_long()
+            if name == "get" and not args:
+                return o
+            if name == "length" and not args:
+                return Val(self.content_len(oid, st), "int")
+            if name in VMETHODS:
+                self.check_vmethod(name, self.content_len(oid, st), args, e, st)
+            if name == "carry" and len(args) >= 1:
+                try:
+                    idx = self.ev.ev(args[0], st)
+                except EvalError:
+                    idx = None
+                if idx is not None and idx.k == "obj":
+                    return self.new_content(self.objlen[idx.arr], st)
+            if name == "getitem_range_nowrap" and len(args) == 2:
+                try:
+                    a, b = to_int(self.ev.ev(args[0], st)), to_int(self.ev.ev(args[1], st))
+                    return self.new_content(b - a, st)
+                except EvalError:
+                    pass
+            if name in SAME_LENGTH_METHODS:
+                return self.new_content(self.content_len(oid, st), st)
         # pure getters on opaque objects are stable: same text, same value
         if not args and name in ("length", "size", "get", "numfields", "numcontents", "ndim", "itemsize", "purelist_depth",
                                  "isscalar", "istuple", "dtype", "format", "ptr_lib", "byteoffset", "bytelength"):
@@ -240,6 +394,16 @@ class CallerUnit(munit.MUnit):
             q = self.ev.fresh("mallocn")
             st.assume(z3.And(q * sz <= nbytes, nbytes < (q + 1) * sz))
             return self.new_object("malloc%d" % self.ext_counter, q, ety, st)
+        if name in ("make_starts", "make_stops", "util::make_starts", "util::make_stops") and len(args) == 1:
+            # util::make_starts(offsets) / make_stops(offsets): views of len(offsets) - 1 elements (values not related here)
+            try:
+                o = self.ev.ev(args[0], st)
+            except EvalError:
+                o = None
+            if o is not None and o.k == "obj":
+                self.ext_counter += 1
+                return self.new_object("%s%d" % (name.split(":")[-1], self.ext_counter), self.objlen[o.arr] - 1,
+                                       self.ev.elem.get(o.arr, "i64"), st)
         if name == "handle_error":
             for a in args:
                 try:
@@ -259,6 +423,21 @@ class CallerUnit(munit.MUnit):
             if len(vals) == 1 and vals[0].k == "obj":
                 return vals[0]
             return self.opaque_value(ty, st, name)
+        if name == "this.length" and not args:
+            tl = self.this_length(st)
+            if tl is not None:
+                return Val(tl, "int")
+        if name.startswith("this.") and name[5:] in SAME_LENGTH_METHODS:
+            # analysed like any other call (their bodies may contain kernel calls); the result has this array's length
+            v = self._call_rest(ev, e, st)
+            tl = self.this_length(st)
+            if tl is not None:
+                return self.new_content(tl, st)
+            return v
+        return self._call_rest(ev, e, st)
+
+    def _call_rest(self, ev, e, st):
+        name, args, ty = e[1], e[2], e[3]
         if name.startswith("this.") and not args:
             ms = self.methods.get(name[5:])
             if not ms or ms[0].get("body") is None or not self.simple_body(ms[0]["body"]):
@@ -270,7 +449,7 @@ class CallerUnit(munit.MUnit):
         d = self.kernels[name]
         params = d["params"]
         actual = args[1:]            # first argument is ptr_lib
-        rec_base = {"kernel": name, "line": self.ev.line, "n": self.callno}
+        rec_base = {"kernel": name, "line": self.ev.line, "n": self.site_ordinal.get((name, self.ev.line), 100 + self.callno)}
         if len(actual) != len(params):
             self.sites.append(dict(rec_base, param="*", kind="G.shape", status="unknown", desc="argument count differs from kernel-dispatch"))
             return self.opaque_value(e[3], st, "err")
@@ -402,6 +581,12 @@ class CallerUnit(munit.MUnit):
     # statements: never give up on a whole method because of one statement
     def stmt(self, s, st):
         try:
+            if s[0] == "ret" and isinstance(s[1], list) and s[1] and s[1][0] == "val":
+                # calls made inside the returned expression (x->getitem_next(...), kernels) are call sites too
+                try:
+                    self.ev.ev(s[1][1], st)
+                except (EvalError, spec.SpecError, KeyError, AttributeError, z3.Z3Exception):
+                    pass
             return super().stmt(s, st)
         except (EvalError, spec.SpecError, KeyError, AttributeError, z3.Z3Exception) as ex:
             # opaque statement: forget what it may have assigned
@@ -437,6 +622,29 @@ class CallerUnit(munit.MUnit):
             m = re.match(r"(\w+)\s*>=\s*(-?\d+)$", src)
             if m and m.group(1) in st.vars and st.vars[m.group(1)].k == "int":
                 st.assume(st.vars[m.group(1)].t >= int(m.group(2)))
+        if mname in VMETHODS and vm_params_match(VMETHODS[mname], list(self.param_types)):
+            env = {}
+            tl = self.this_length(st)
+            if tl is not None:
+                env["this.length"] = tl
+            for pname, pty in self.param_types.items():
+                bare = unconst(pty)
+                if bare.startswith("r:"):
+                    bare = unconst(bare[2:])
+                if index_elem(bare) is not None:
+                    try:
+                        v = self.ev_var(["v", pname, bare], st)
+                        if v.k == "obj":
+                            env["len:" + pname] = self.objlen[v.arr]
+                    except Exception:
+                        pass
+                elif pname in st.vars and st.vars[pname].k == "int":
+                    env[pname] = st.vars[pname].t
+            for desc, fn in VMETHODS[mname]["pre"]:
+                try:
+                    st.assume(fn(env))
+                except KeyError:
+                    pass
         self.init = st.fork()
         try:
             self.block(self.f["body"], st)
@@ -495,7 +703,7 @@ def _work(task):
             for k, f in enumerate(fs):
                 if f.get("body") is None:
                     continue
-                if "kernel" not in json.dumps(f["body"])[:0] and not _mentions_kernel(f["body"], _G["kernels"]):
+                if not _mentions_kernel(f["body"], _G["kernels"]) and not any(('"%s"' % vm) in json.dumps(f["body"]) for vm in VMETHODS):
                     continue
                 out["methods"] += 1
                 body = munit.subst_helpers(copy.deepcopy(f["body"]), helpers)
